@@ -14,7 +14,12 @@ Stage B (correspondence with the Lean model Ptn.C08):
   * `expsites`   site identifiers of TEBD.exponents (swap pairs, TensorProduct keys in dict order) for
                  swaps given as SWAPlist / plain list / None;
   * `steprec`    the model's global binding record of all time steps (which physical leg every gate
-                 input meets), evaluated densely, must reproduce the implementation's final state.
+                 input meets), evaluated densely, must reproduce the implementation's final state;
+  * `value`      (theorems two_site_gate_value / single_site_gate_value / tebd_step_value) integer state, integer gate
+                 tensors fed through TEBD._apply_one_trotter_step with truncation disabled: the LEAN MODEL evaluates the
+                 flat network "old node tensors + gate tensors" over the old bonds and its own binding record (`netValue`,
+                 line `C04 einrec`) and must reproduce the library's dense vector (exactly when only single-site gates
+                 act - everything stays integer -, 1e-10 relative after an SVD) and the dense product of the gates.
 Stage C (oracle): the state vector after every TEBD step against the product, in list order, of
   dense gates built here (expm of kron products embedded with kron + axis permutation; SWAP = exchange
   of two axes); identifiers and parent/child relations unchanged; bond bound under truncation;
@@ -52,11 +57,20 @@ RULE = ("tebd cases: random tree (1-6 nodes, physical dimensions from {1,2,3}, s
         "and with a config, exponentiate_splitting(dim=...) on equal-dimension systems, state element types real / "
         "int64 / complex64 / read-only views, real and integer operator matrices, NumPy factors, magnitudes 1e-8..1e+8 "
         "(spread or on one tensor), canonical initial states, identifiers that are prefixes of each other or contain "
-        "'contr'; swap_gate() with its default")
+        "'contr'; swap_gate() with its default. value cases: tree of 1-4 nodes, one physical leg per node (dimensions "
+        "1-3, mixed), bonds 1-3, small-integer tensors, 1-4 operators (single-site, two-site in either naming order, "
+        "SWAP from swap_gate) with integer gate tensors in [-2, 2], 1-2 rounds, big sum of the model <= 30000 terms; "
+        "non-trivial = a two-site operator occurs")
 PARTIAL = [
-    "value-level equality of the new state with the product of dense gates is decided per input by the "
-    "dense oracle (the Lean theorems cover the list order of the operators, the SWAP index rule, the "
-    "kron/reshape digit rule and the leg bookkeeping and structure of one gate application)",
+    "value-level equality of the new state with the ordered product of the gates is PROVED for the labelled-network "
+    "semantics (two_site_gate_value, single_site_gate_value, swap_gate_value, tebd_step_value, tebd_steps_value: any "
+    "commutative semiring, all dimensions) GIVEN the tensordot identities of contract_nodes / absorb_into_open_legs and "
+    "the exact factorisation of split_node_svd as hypotheses (truncation disabled); that NumPy's tensordot / the "
+    "library's routines satisfy these identities, floating point, expm and the truncated case are decided per input by "
+    "the dense oracle and the `value` correspondence",
+    "an operator that names no site is skipped by _apply_one_trotter_step (`pass`); the value theorems state this "
+    "(gateAct of [] is the identity).  Such an exponent cannot be produced through TensorProduct.exp (an empty "
+    "product raises), so the property (single-site and nearest-neighbour terms) has no clause about it",
     "scipy.linalg.expm and numpy.linalg.svd are used by contract (expm validated against an own "
     "scaling-and-squaring Taylor series and, for Hermitian generators, eigh; SVD by the reproduced vector)",
     "the bond bound under truncation is decided by the oracle only (selection rule: property C10)",
@@ -1066,6 +1080,221 @@ def _case_swap(ctx, case, model_out: Optional[str] = None):
 
 # ===================================================================== driver
 
+# ===================================================================== value cases (Lean model evaluates its own record)
+#
+# Theorems `two_site_gate_value`, `single_site_gate_value`, `tebd_step_value` (lean/Ptn/C08/Props.lean) say that the flat
+# network "old node tensors + gate tensors" over the model's binding record evaluates to the ordered product of the gates
+# applied to the old state.  Here that evaluation is done BY THE LEAN MODEL (`netValue`, line `C04 einrec …`) on the
+# library's integer node tensors and integer gate tensors, and compared with the dense vector of the state after the gates
+# went through the library's own gate-application path (`TEBD._apply_one_trotter_step`, truncation disabled).
+
+VALUE_SIZE_LIMIT = 30000
+
+
+def gen_value_case(rng: random.Random) -> Dict[str, Any]:
+    n = rng.choice([1, 2, 2, 3, 3, 4])
+    par = gen.random_parent_array(rng, n)
+    pool = rng.choice([(2, 3), (2, 2, 3), (2,), (2, 1, 3), (3, 2)])
+    phys = [rng.choice(pool) for _ in range(n)]
+    bond = [0] + [rng.choice([1, 2, 2, 3]) for _ in range(1, n)]
+    pairs = [(i, par[i]) for i in range(1, n)]
+    ops = []
+    for _ in range(rng.randint(1, 4)):
+        if pairs and rng.random() < 0.7:
+            a, b = rng.choice(pairs)                       # a is the child
+            sites = [a, b] if rng.random() < 0.5 else [b, a]
+            swap = phys[a] == phys[b] and rng.random() < 0.3
+        else:
+            sites, swap = [rng.randrange(n)], False
+        ops.append({"sites": sites, "gseed": rng.randrange(10 ** 9), "swap": swap})
+    case = {"kind": "value", "par": par, "phys": phys, "bond": bond, "tseed": rng.randrange(10 ** 9), "ops": ops,
+            "steps": rng.choice([1, 1, 2])}
+    # keep the big sum of the model small: bonds x gate inputs x open legs
+    while _value_size(case) > VALUE_SIZE_LIMIT and (case["steps"] > 1 or len(case["ops"]) > 1):
+        if case["steps"] > 1:
+            case["steps"] -= 1
+        else:
+            case["ops"].pop()
+    return case
+
+
+def _value_size(case) -> int:
+    size = 1
+    for d in case["phys"]:
+        size *= d
+    for b in case["bond"][1:]:
+        size *= b
+    for _ in range(case["steps"]):
+        for op in case["ops"]:
+            for s_ in op["sites"]:
+                size *= case["phys"][s_]
+    return size
+
+
+def build_value(case):
+    """(ttns, names, gates): integer state, integer gate tensors (shape outputs + inputs) with their site names."""
+    from pytreenet.ttns.ttns import TreeTensorNetworkState
+    from pytreenet.operators.common_operators import swap_gate
+    from harness.props.c04 import _convert
+    par, phys = case["par"], case["phys"]
+    n = len(par)
+    names = {i: gen.node_name(i) for i in range(n)}
+    rng = random.Random(case["tseed"])
+    nprng = np.random.default_rng(case["tseed"])
+    bond = {(par[i], i): case["bond"][i] for i in range(1, n)}
+    open_dims = {i: [phys[i]] for i in range(n)}
+    ttns, _c, _a, _ = gen.build_network(TreeTensorNetworkState, par, bond, open_dims, rng, nprng, names=names,
+                                        complex_=False, small_int=True)
+    _convert(ttns, "int")
+    gates = []
+    for op in case["ops"]:
+        ds = [phys[s_] for s_ in op["sites"]]
+        if op["swap"]:
+            g = np.rint(np.asarray(swap_gate(ds[0])).real).astype(np.int64).reshape(ds + ds)
+        else:
+            g = np.random.default_rng(op["gseed"]).integers(-2, 3, size=tuple(ds + ds)).astype(np.int64)
+        gates.append(([names[s_] for s_ in op["sites"]], g))
+    return ttns, names, gates
+
+
+def value_model_lines(case) -> List[str]:
+    ttns, names, gates = build_value(case)
+    num = {names[i]: i for i in names}
+    ops = ["-".join(str(num[x]) for x in sites) for sites, _g in gates]
+    return ["C08 steprec " + " ".join(_tree_tokens(ttns, num)) + " / " + " ".join(ops * case["steps"])]
+
+
+def value_einrec_line(case, record_out: str, ttns, names, gates) -> Optional[str]:
+    """The flat network of `tebd_step_value`: old node tensors + one tensor per gate, over the old bonds and the model's
+    record; free legs: the final physical leg of every site in sorted identifier order."""
+    from harness import einsum_corr
+    if " | " not in record_out:
+        return None
+    record = record_out.split(" | ")[0]
+    num = {names[i]: i for i in names}
+    label: Dict[str, int] = {}
+    dims: List[int] = []
+
+    def lab(name, d):
+        if name not in label:
+            label[name] = len(dims)
+            dims.append(int(d))
+        return label[name]
+
+    leaves, pairs = [], []
+    for nid in sorted(ttns.nodes):
+        node = ttns.nodes[nid]
+        t = np.asarray(ttns.tensors[nid])
+        legs = []
+        ax = 0
+        if node.parent is not None:
+            legs.append(lab(f"e{num[nid]}>{num[node.parent]}", t.shape[ax]))
+            ax += 1
+        for c in node.children:
+            legs.append(lab(f"e{num[nid]}>{num[c]}", t.shape[ax]))
+            ax += 1
+        legs.append(lab(f"s{num[nid]}", t.shape[ax]))
+        leaves.append((legs, t))
+        if node.parent is not None:
+            pairs.append((f"e{num[node.parent]}>{num[nid]}", f"e{num[nid]}>{num[node.parent]}"))
+    cur = {num[nid]: f"s{num[nid]}" for nid in ttns.nodes}
+    by_gate: Dict[int, Dict[int, str]] = {}
+    for tok in record.split():
+        g, k, leg = tok.split(":")
+        by_gate.setdefault(int(g), {})[int(k)] = leg
+    for g in range(len(gates) * case["steps"]):
+        sites, gt = gates[g % len(gates)]
+        ins = by_gate.get(g, {})
+        if sorted(ins) != list(range(len(sites))):
+            return None
+        k = len(sites)
+        legs = [lab(f"o{g}.{j}", gt.shape[j]) for j in range(k)] + [lab(f"i{g}.{j}", gt.shape[k + j]) for j in range(k)]
+        leaves.append((legs, gt))
+        for j in range(k):
+            if ins[j] not in label:
+                return None
+            pairs.append((ins[j], f"i{g}.{j}"))
+            cur[num[sites[j]]] = f"o{g}.{j}"
+    free = [label[cur[num[nid]]] for nid in sorted(ttns.nodes)]
+    return einsum_corr.einrec_line(dims, free, [(label[a], label[b]) for a, b in pairs], leaves)
+
+
+def _case_value(ctx, case, model_out: Optional[List[str]] = None):
+    from harness import einsum_corr
+    from pytreenet.util.tensor_splitting import SVDParameters
+    from pytreenet.time_evolution.tebd import TEBD
+    from pytreenet.time_evolution.trotter import TrotterSplitting
+    from pytreenet.operators.operator import NumericOperator
+    try:
+        ttns, names, gates = build_value(case)
+    except Exception as e:                      # noqa: BLE001
+        ctx.oracle_fail(case, f"value: construction raised {type(e).__name__}: {str(e)[:200]}")
+        return
+    order = sorted(ttns.nodes)
+    dims = dense.phys_dims(ttns, order)
+    two = [sites for sites, _g in gates if len(sites) == 2]
+    child_first = any(ttns.nodes[s_[0]].parent == s_[1] for s_ in two)
+    ctx.count(("value", json.dumps(case, sort_keys=True)), nontrivial=bool(two), corr=True)
+    ctx.tally("value_nodes", len(order))
+    ctx.tally("value_features", "+".join(k for k, v in (("two", bool(two)), ("childfirst", child_first),
+                                                        ("swap", any(o["swap"] for o in case["ops"])),
+                                                        ("mixed", len(set(dims)) > 1),
+                                                        ("steps>1", case["steps"] > 1)) if v) or "single-site only")
+    ctx.sample(case, 2)
+    if model_out is None or len(model_out) < 2:
+        rec = ctx.lean.batch(value_model_lines(case))[0]
+        line = value_einrec_line(case, rec, ttns, names, gates)
+        model_out = [rec, ctx.lean.batch([line])[0] if line else "no-record"]
+    rec, ans = model_out[0], model_out[1]
+    tab = einsum_corr.parse_table(ans, "full")
+    if tab is None:
+        ctx.corr_fail(case, f"value: the model has no value for its own binding record: record [{rec[:120]}] "
+                            f"einrec [{ans[:80]}]")
+        return
+    v0 = np.array(dense.ttns_vector(ttns, order))
+    struct0 = dense.structure(ttns)
+    # independent dense reference: ordered product of the embedded gates
+    ref = v0.astype(complex)
+    for _ in range(case["steps"]):
+        for sites, gt in gates:
+            dd = int(np.prod(gt.shape[:len(sites)]))
+            ref = embed(order, dims, sites, gt.reshape(dd, dd).astype(complex)) @ ref
+    with warnings.catch_warnings():
+        warnings.simplefilter("ignore")
+        try:
+            algo = TEBD(ttns, TrotterSplitting(), 0.1, 0.1, [], svd_parameters=SVDParameters(**NOTRUNC))
+            for _ in range(case["steps"]):
+                for sites, gt in gates:
+                    algo._apply_one_trotter_step(NumericOperator(gt, list(sites)))
+            state = algo.state
+            got = np.array(dense.ttns_vector(state, order))
+        except Exception as e:                  # noqa: BLE001
+            ctx.oracle_fail(case, f"value: applying the gates raised {type(e).__name__}: {str(e)[:200]}")
+            return
+    if dense.structure(state) != struct0:
+        ctx.oracle_fail(case, f"value: identifiers / parent-child relations changed: {dense.structure(state)}")
+        return
+    want = np.array(tab, dtype=float)
+    if want.shape != got.shape:
+        ctx.corr_fail(case, f"value: model table has {want.shape} entries, the state vector {got.shape}")
+        return
+    exact = not two and np.asarray(got).dtype.kind in "iu"
+    ctx.tally("value_compare", "exact (integers)" if exact else "1e-10 relative")
+    scale = max(1.0, float(np.linalg.norm(want)))
+    if (exact and any(int(a) != int(b) for a, b in zip(got, tab))) or \
+            (not exact and np.linalg.norm(got - want) > 1e-10 * scale):
+        if np.linalg.norm(ref - want) <= 1e-10 * scale:
+            ctx.oracle_fail(case, f"value: state after the gates {np.round(got[:6], 6)} is not the ordered product of the "
+                                  f"gates applied to the old state {want[:6]} (Lean evaluation of the record = dense reference)")
+        else:
+            ctx.corr_fail(case, f"value: library {np.round(got[:6], 6)} differs from the Lean model's evaluation of its "
+                                f"binding record on the same integer tensors {want[:6]}")
+        return
+    if np.linalg.norm(ref - want) > 1e-10 * scale:
+        ctx.corr_fail(case, f"value: Lean evaluation of the record {want[:6]} differs from the dense product of gates "
+                            f"{np.round(ref[:6], 6)}")
+
+
 def all_legs_cases(rng: random.Random) -> List[Dict[str, Any]]:
     """The whole parameter space of the legs cases (1944 layouts), one tensor seed each."""
     out = []
@@ -1175,6 +1404,9 @@ def gen_cases(ctx) -> List[Dict[str, Any]]:
         c = gen_empty_case(arng)
         _audit_axes(c, arng)
         cases.append(c)
+    vrng = ctx.subrng("value")
+    for _ in range(ctx.n(120, 1500)):
+        cases.append(gen_value_case(vrng))
     # probe: swap lists as plain Python lists (see _report_plain)
     probes = 0
     while probes < 3:
@@ -1192,6 +1424,8 @@ def model_lines_for(case) -> List[str]:
     if case["kind"] == "legs":
         _ttn, info = build_legs(case)
         return [legs_model_line(case, info)]
+    if case["kind"] == "value":
+        return value_model_lines(case)
     ttns, names, _tr, expected = build_tebd(case)
     return tebd_model_lines(case, expected, ttns, names)
 
@@ -1215,15 +1449,31 @@ def run(ctx):
         spans.append((len(lines), len(lines) + len(ls)))
         lines.extend(ls)
     outs = ctx.lean.batch(lines)
+    # second round: the value cases hand the model's record back to the model for evaluation (`C04 einrec`)
+    vlines: List[str] = []
+    vidx: Dict[int, int] = {}
+    for k, (c, (lo, hi)) in enumerate(zip(cases, spans)):
+        if c.get("kind") == "value" and hi > lo:
+            try:
+                line = value_einrec_line(c, outs[lo], *build_value(c))
+            except Exception:                   # noqa: BLE001
+                line = None
+            if line:
+                vidx[k] = len(vlines)
+                vlines.append(line)
+    vouts = ctx.lean.batch(vlines) if vlines else []
     bad = ["C08 swap", "C08 swap x", "C08 splitting 1:2", "C08 splitting a:1:", "C08 twosite q 1 2 - 2 - 1 1",
            "C08 twosite p 1 2 - 2 -", "C08 seq 0:-:1 1:0:-", "C08 seq 0:-:1 / 0+1", "C08 frobnicate",
            "C08 steprec 0:-:1 1:0:-", "C08 steprec 0:-:1 / a", "C08 expsites 5/x/n", "C08 expsites 5/n"]
     answers = ctx.lean.batch(bad)
     if any(a != "bad-op" for a in answers):
         raise HarnessError(f"model driver accepts malformed requests: {list(zip(bad, answers))}")
-    for c, (lo, hi) in zip(cases, spans):
+    for k, (c, (lo, hi)) in enumerate(zip(cases, spans)):
         if ctx.time_left() < 0:
             break
+        if c.get("kind") == "value":
+            run_case(ctx, c, [outs[lo], vouts[vidx[k]] if k in vidx else "no-record"] if hi > lo else None)
+            continue
         run_case(ctx, c, outs[lo:hi] if hi > lo else None)
 
 
@@ -1235,6 +1485,8 @@ def run_case(ctx, case, model_out=None):
         _case_legs(ctx, case, model_out[0] if model_out else None)
     elif kind == "tebd":
         _case_tebd(ctx, case, model_out)
+    elif kind == "value":
+        _case_value(ctx, case, model_out)
     else:
         raise ValueError(f"unknown case kind {kind!r}")
 
